@@ -14,8 +14,8 @@ import numpy as np
 
 from simphot import scenes
 from simphot.compare import diff, digest, plain
-from simphot.kernel import (Inapplicable, Machine, Raised, Violation, call,
-                            dec, enc)
+from simphot.kernel import (Held, Inapplicable, Machine, Raised, Violation,
+                            call, dec, enc)
 
 
 class _St:
@@ -23,6 +23,9 @@ class _St:
 
 
 def _cmp(st, subject, val, exp, rtol=0.0, atol=0.0, what='', inv='order'):
+    if getattr(st, 'held', None) is not None and not isinstance(
+            val, Raised) and subject != 'normalization_value':
+        st.held.add(subject, val)
     if isinstance(val, Raised):
         if isinstance(exp, Raised) and exp.type == val.type:
             st.stats.probe('raises_like_fresh')
@@ -1278,6 +1281,10 @@ class FreshMachine(Machine):
         st.stats, st.trace, st.cfg = stats, trace, plan['cfg']
         st.scene = plan['scene']
         st.nops = 0
+        # values handed out earlier must stay what they were (not for the
+        # psf tables, whose digests are comparatively expensive)
+        st.held = Held() if self.variant in ('background', 'profile',
+                                             'aperture', 'finder') else None
         self.fam.start(st, plan)
         return st
 
@@ -1306,6 +1313,8 @@ class FreshMachine(Machine):
             self.fam.step(st, op)
         finally:
             st.iso = False
+        if st.held is not None:
+            st.held.check(f'by {op}')
 
     def nontrivial(self, plan, st):
         return st.nops >= 2
